@@ -1,4 +1,5 @@
 import Pathrs.Proofs.Props.C14
+import Pathrs.Proofs.RmAll
 
 /-!
 # C13 — `remove_all` removes exactly the named subtree and never follows links
@@ -17,8 +18,17 @@ import Pathrs.Proofs.Props.C14
 * `C03_trailing_slash_remove_all` / `C14`'s `resolveParent_ok_inv`: the parent is the in-root
   resolution of the rest of the path.
 
-That racing callers *all* succeed (progress) and the whole-filesystem frame condition are
-decided by the racing-threads suite and the effect oracle of the check.
+* `C13_exact` / `C13_absent` (refinement against a mutable tree, `Proofs/RmAll.lean`): run against `RFS` — a
+  mutable directory tree with the kernel's answers to `unlinkat`, `rmdir`, the `O_DIRECTORY|O_NOFOLLOW` open and
+  directory streams (`dirOpen` snapshots the names, `dirNext` delivers them), state threaded by `exec` — the model
+  of `remove_all` **succeeds**, the named entry is gone, every directory below it is empty, the parent lost exactly
+  that entry, no other directory changed and no kind changed, for every finite tree (`WF`: a rank decreasing along
+  entries, distinct proper names, one parent per object) and any fuel above `rank dir + 3` (the model's constant is
+  100 000); an entry that does not exist is success with nothing changed.  The error-message reads the wrappers make
+  on the way (`EISDIR`, `ENOTEMPTY` are part of the normal course) are shown to leave the state unchanged.
+
+That racing callers *all* succeed (progress under concurrent removal) and the frame condition on the real
+filesystem are decided by the racing-threads suite and the effect oracle of the check.
 -/
 
 open K Runs
@@ -293,3 +303,44 @@ theorem C13_success_witness (fuel : Nat) (dir : Fd) (name : Bytes) {h h' : Hist}
               · cases hxa
                 exact (ignoreEnoent_removeInode_witness hy7).mono (hp1.trans (hp3.trans hp6)) hp7
               · rcases hfe7 with ⟨_, hxe⟩ | ⟨_, hxe⟩ <;> cases hxe
+
+/-! ### exactly the named subtree (sequential refinement against a mutable tree) -/
+
+open RmAll in
+/-- **`remove_all` removes exactly the named subtree** -/
+theorem C13_exact (s : RFS) (rank : Fd → Nat) (hw : WF s rank) (dir : Fd) (hdir : 0 ≤ dir) (name : Bytes) (c : Fd)
+    (hc : s.child dir name = some c) (fuel : Nat) (hfuel : rank dir + 3 ≤ fuel) :
+    ∃ s', exec s (RemoveAll.removeAll fuel dir name) = (s', .ok ()) ∧
+      s'.entries dir = (s.entries dir).filter (fun e => e.1 ≠ name) ∧
+      (∀ d, Below s c d → s'.entries d = []) ∧
+      (∀ d, ¬ Below s c d → d ≠ dir → s'.entries d = s.entries d) ∧
+      s'.isDir = s.isDir :=
+  removeAll_exact s rank hw dir hdir name c hc fuel hfuel
+
+open RmAll in
+/-- the entry is gone afterwards -/
+theorem C13_exact_gone (s : RFS) (rank : Fd → Nat) (hw : WF s rank) (dir : Fd) (hdir : 0 ≤ dir) (name : Bytes) (c : Fd)
+    (hc : s.child dir name = some c) (fuel : Nat) (hfuel : rank dir + 3 ≤ fuel) :
+    ∃ s', exec s (RemoveAll.removeAll fuel dir name) = (s', .ok ()) ∧ s'.child dir name = none := by
+  obtain ⟨s', h1, h2, _⟩ := removeAll_exact s rank hw dir hdir name c hc fuel hfuel
+  refine ⟨s', h1, ?_⟩
+  unfold RFS.child
+  rw [h2]
+  generalize s.entries dir = l
+  induction l with
+  | nil => rfl
+  | cons e t ih =>
+    by_cases he : e.1 = name
+    · simp only [List.filter_cons, he, ne_eq, not_true_eq_false, decide_false, Bool.false_eq_true, ↓reduceIte]; exact ih
+    · have hne : (name == e.1) = false := by simpa using fun h => he h.symm
+      simp only [List.filter_cons, ne_eq, he, not_false_eq_true, decide_true, ↓reduceIte]
+      rw [List.lookup_cons, hne]
+      exact ih
+
+open RmAll in
+/-- an entry that does not exist (somebody else removed it): success, nothing changed -/
+theorem C13_absent (s : RFS) (dir : Fd) (hdir : 0 ≤ dir) (name : Bytes) (hname : RmAll.ProperName name)
+    (hc : s.child dir name = none) (fuel : Nat) :
+    ∃ s', exec s (RemoveAll.removeAll (fuel + 1) dir name) = (s', .ok ()) ∧ s'.entries = s.entries ∧ s'.isDir = s.isDir :=
+  removeAll_absent s dir hdir name hname hc fuel
+
